@@ -243,7 +243,7 @@ func Profile(prop string, rng *prng.Rand, idx uint64) *GenCfg {
 		// big pools: term lists whose points and scalars are (nearly) all distinct -
 		// thresholds in the number of DISTINCT operands of one call, not only in its
 		// length
-		if rng.Bool(0.04) && c.NP > 0 {
+		if rng.Bool(0.03) && c.NP > 0 {
 			c.NP = 17 + rng.Intn(120)
 			c.NS = 17 + rng.Intn(40)
 			if c.PBigList < 0.2 {
